@@ -100,6 +100,28 @@ def run_driver(src_root, out_dir, target_dir, config="all", crates="simple_dns,s
     return r.stdout
 
 
+def build_fixture_facts():
+    """facts of the rule fixtures (tiny crate with good / bad twins), cached by content hash like /repo's"""
+    os.makedirs(CACHE, exist_ok=True)
+    src = os.path.join(VERIF, "fixtures", "fx_rules")
+    lock = open(os.path.join(CACHE, "lock"), "w")
+    fcntl.flock(lock, fcntl.LOCK_EX)
+    try:
+        sha = tree_hash(src)
+        fdir = os.path.join(CACHE, "fx-facts", sha)
+        if os.path.exists(os.path.join(fdir, "fx_rules.json")) and os.path.exists(os.path.join(fdir, "ok")):
+            return fdir
+        shutil.rmtree(os.path.join(CACHE, "fx-facts"), ignore_errors=True)
+        run_driver(src, fdir, os.path.join(CACHE, "target-fx"), "all", crates="fx_rules", packages=[])
+        if not os.path.exists(os.path.join(fdir, "fx_rules.json")):
+            raise InfraError("driver did not write the fixture facts")
+        open(os.path.join(fdir, "ok"), "w").write("ok")
+        return fdir
+    finally:
+        fcntl.flock(lock, fcntl.LOCK_UN)
+        lock.close()
+
+
 def build_facts(config="all", verbose=False):
     """Return (facts_dir, sha, reused)."""
     os.makedirs(CACHE, exist_ok=True)
@@ -238,7 +260,9 @@ class Program:
         self.impls = []
         self.consts = {}
         self.crates = []
-        for name in ("simple_dns", "simple_mdns"):
+        names = ["simple_dns", "simple_mdns"] + sorted(n[:-5] for n in os.listdir(fdir)
+                                                           if n.endswith(".json") and n[:-5] not in ("simple_dns", "simple_mdns"))
+        for name in names:
             p = os.path.join(fdir, name + ".json")
             if not os.path.exists(p):
                 continue
